@@ -1071,13 +1071,15 @@ Fixpoint scmd_wf (N : nat) (fresh : bool) (c : scmd) : bool :=
   match c with
   | SPush s _ | SPushModal s _ | SReplace s _ | SSchedule s _ => (s <? N)%nat
   | SHandlerAsk _ _ => negb fresh
+  | SConnect _ k => (k <? 7)%nat                       (* H_CUSTOM k < 10: not the id of an InputHandler's handler *)
   | SIfCount _ t e => forallb (scmd_wf N fresh) t && forallb (scmd_wf N fresh) e
   | _ => true
   end.
 Definition cmds_wf N fresh (l : list scmd) : bool := forallb (scmd_wf N fresh) l.
 Definition spec_wf N fresh (sp : screen_spec) : bool :=
   cmds_wf N fresh (sc_refresh sp) && cmds_wf N fresh (sc_show sp) && cmds_wf N fresh (sc_closed sp) &&
-  forallb (fun x => cmds_wf N fresh (fst (snd x))) (sc_input sp) && cmds_wf N fresh (fst (sc_input_default sp)).
+  forallb (fun x => cmds_wf N fresh (fst (snd x))) (sc_input sp) && cmds_wf N fresh (fst (sc_input_default sp)) &&
+  forallb (cmds_wf N fresh) (sc_custom sp).
 Definition quit_wf N (quit : option nat) : bool :=
   match quit with Some q => (q <? N)%nat | None => true end.
 Definition acts_wf N fresh (acts : list saction) : bool :=
@@ -1096,7 +1098,8 @@ Fixpoint scmd_noask (c : scmd) : bool :=
   end.
 Definition spec_noask (sp : screen_spec) : bool :=
   forallb scmd_noask (sc_refresh sp) && forallb scmd_noask (sc_show sp) && forallb scmd_noask (sc_closed sp) &&
-  forallb (fun x => forallb scmd_noask (fst (snd x))) (sc_input sp) && forallb scmd_noask (fst (sc_input_default sp)).
+  forallb (fun x => forallb scmd_noask (fst (snd x))) (sc_input sp) && forallb scmd_noask (fst (sc_input_default sp)) &&
+  forallb (forallb scmd_noask) (sc_custom sp).
 Definition no_handler_objects (specl : list screen_spec) (acts : list saction) : bool :=
   forallb spec_noask specl &&
   forallb (fun a => match a with SACmds l => forallb scmd_noask l | SARun => true end) acts.
@@ -1111,16 +1114,43 @@ Proof.
   - induction e as [|x r IHr]; constructor; [apply IH|exact IHr].
 Qed.
 
-Definition htable (k : nat) : list (nat * list (nat * nat)) :=
-  [(CLS_RENDER, [(H_RENDER, 0)]); (CLS_CLOSE, [(H_CLOSE, 0)]); (CLS_RECEIVED, [(H_RECEIVED, 0)])] ++
-  match k with 0 => [] | _ => [(CLS_READY, map (fun j => (H_READY j, 0)) (seq 0 k))] end.
-#[local] Arguments htable : simpl never.
+(* the handler table: the scheduler's and the input manager's own handlers, H_READY 0 .. k-1 of the k InputHandler
+   objects created so far, and for the application's own signal classes (>= 5) callbacks with ids 3 .. 9 *)
+Definition hlist (hs : list (nat * list (nat * nat))) (cls : nat) : list (nat * nat) :=
+  match option_map snd (find (fun p : nat * list (nat * nat) => (fst p =? cls)%nat) hs) with Some l => l | None => [] end.
+Definition HsOK (k : nat) (hs : list (nat * list (nat * nat))) : Prop :=
+  hlist hs CLS_RENDER = [(H_RENDER, 0)] /\ hlist hs CLS_CLOSE = [(H_CLOSE, 0)] /\ hlist hs CLS_RECEIVED = [(H_RECEIVED, 0)] /\
+  hlist hs CLS_READY = map (fun j => (H_READY j, 0)) (seq 0 k) /\
+  forall cls, (cls = 0 \/ 5 <= cls) -> Forall (fun hd => 3 <= fst hd < 10) (hlist hs cls).
 #[local] Arguments H_READY : simpl never.
 #[local] Arguments Nat.modulo : simpl never.
-Lemma htable_add k : add_handler (htable k) CLS_READY (H_READY k) 0 = htable (S k).
+Lemma hlist_add hs cls hid data cls' :
+  hlist (add_handler hs cls hid data) cls' = if (cls' =? cls)%nat then hlist hs cls ++ [(hid, data)] else hlist hs cls'.
 Proof.
-  destruct k as [|k]; [reflexivity|]. unfold htable. cbn [app add_handler]. cbn [Nat.eqb CLS_RENDER CLS_CLOSE CLS_RECEIVED CLS_READY].
-  rewrite (seq_S (S k) 0), map_app. reflexivity.
+  unfold hlist. induction hs as [|[c l] r IH]; cbn [add_handler].
+  - cbn [find fst option_map snd]. rewrite (Nat.eqb_sym cls cls'). destruct (cls' =? cls)%nat; reflexivity.
+  - destruct (c =? cls)%nat eqn:E.
+    + apply Nat.eqb_eq in E. subst c. cbn [find fst]. rewrite Nat.eqb_refl. cbn [option_map snd].
+      rewrite (Nat.eqb_sym cls cls'). destruct (cls' =? cls)%nat; reflexivity.
+    + cbn [find fst]. rewrite E. destruct (c =? cls')%nat eqn:E2; cbn [option_map snd].
+      * apply Nat.eqb_eq in E2. subst c. rewrite E. reflexivity.
+      * exact IH.
+Qed.
+Lemma HsOK_add_ready k hs : HsOK k hs -> HsOK (S k) (add_handler hs CLS_READY (H_READY k) 0).
+Proof.
+  intros (H1 & H2 & H3 & H4 & H5). unfold HsOK. rewrite !hlist_add. cbn [Nat.eqb CLS_RENDER CLS_CLOSE CLS_RECEIVED CLS_READY].
+  repeat split; auto.
+  - rewrite H4, (seq_S k 0), map_app. reflexivity.
+  - intros cls C. rewrite hlist_add. destruct (cls =? CLS_READY)%nat eqn:E; [|apply H5, C].
+    apply Nat.eqb_eq in E. unfold CLS_READY in E. lia.
+Qed.
+Lemma HsOK_add_custom k hs cls hid data : HsOK k hs -> 5 <= cls -> 3 <= hid < 10 -> HsOK k (add_handler hs cls hid data).
+Proof.
+  intros (H1 & H2 & H3 & H4 & H5) C Hh. unfold HsOK. rewrite !hlist_add.
+  assert (E : forall c, c < 5 -> (c =? cls)%nat = false) by (intros c L; apply Nat.eqb_neq; lia).
+  rewrite !E by (unfold CLS_RENDER, CLS_CLOSE, CLS_RECEIVED, CLS_READY; lia).
+  repeat split; auto. intros cls' C'. rewrite hlist_add. destruct (cls' =? cls)%nat; [|apply H5, C'].
+  apply Forall_app. split; [apply H5; right; exact C|]. constructor; [exact Hh|constructor].
 Qed.
 
 Definition en_of (d : sdata) : ScreenMon.entry :=
@@ -1248,7 +1278,7 @@ Section Scr.
     c_quit : st_quit u = quit;
     c_nscr : length (st_scr u) = N;
     c_stk_wf : forall d, In d (st_stack u) -> sd_scr d < N;
-    c_hs : hs = htable (length (st_ih u));
+    c_hs : HsOK (length (st_ih u)) hs;
     c_p_ready : PSub (map triple (filter isready l)) (m_hand m);
     c_p_recv : forall sg, In sg l -> sg_cls sg = CLS_RECEIVED -> sg_data sg = m_line m;
     c_e_recv : forall sp, In sp ex -> sp_cls sp = CLS_RECEIVED /\ sp_data sp = m_line m;
@@ -1583,7 +1613,7 @@ Section Scr.
 
   (* events that only change "previous event" (and end a pending quit-dialog tracking) *)
   Definition plain_tag (t : nat) : bool :=
-    (t =? T_SETUP)%nat || (t =? T_REFRESH)%nat || (t =? T_CLOSED)%nat || (t =? T_MARK)%nat || (t =? T_ASK)%nat || (t =? T_OP)%nat.
+    (t =? T_SETUP)%nat || (t =? T_REFRESH)%nat || (t =? T_CLOSED)%nat || (t =? T_MARK)%nat || (t =? T_ASK)%nat || (t =? T_OP)%nat || (t =? T_CUSTOM)%nat.
   Lemma IT_ev_plain tag a : plain_tag tag = true -> IT (ev tag a).
   Proof.
     intros P n Q s HS HI HQ. open_inv HI. unfold plain_tag in P.
@@ -1824,7 +1854,7 @@ Section Scr.
         destruct (j =? length (st_ih u))%nat eqn:E; cbn; discriminate.
       + intros F. rewrite app_length. apply (FreshInv_len _ _ _ (length (st_ih u))); [lia|auto].
       + rewrite upd_nth_length. exact c_nscr0.
-      + rewrite c_hs0, app_length. cbn [length]. rewrite Nat.add_1_r. apply htable_add.
+      + rewrite app_length. cbn [length]. rewrite Nat.add_1_r. apply HsOK_add_ready, c_hs0.
     - intros F. rewrite (at_u _ _ _ _ _ _ HAt), (at_m _ _ _ _ _ _ HAt). cbn [st_ih st_istack set m_hand m_recv].
       destruct (FreshInv_new _ _ _ _ (c_fresh0 F)) as (A & B & C). rewrite app_length. cbn [length].
       split; [lia|]. split; [exact A|]. split; [exact B|exact C].
@@ -1882,7 +1912,7 @@ Section Scr.
       + intros j. rewrite nth_snoc. destruct (j <? length (st_ih u))%nat eqn:L; [auto|].
         destruct (j =? length (st_ih u))%nat eqn:E; cbn; discriminate.
       + intros F. rewrite app_length. apply (FreshInv_len _ _ _ (length (st_ih u))); [lia|auto].
-      + rewrite c_hs0, app_length. cbn [length]. rewrite Nat.add_1_r. apply htable_add.
+      + rewrite app_length. cbn [length]. rewrite Nat.add_1_r. apply HsOK_add_ready, c_hs0.
     - intros F. rewrite (at_u _ _ _ _ _ _ HAt), (at_m _ _ _ _ _ _ HAt). cbn [st_ih st_istack set m_hand m_recv].
       destruct (FreshInv_new _ _ _ _ (c_fresh0 F)) as (A & B & C). rewrite app_length. cbn [length].
       split; [lia|]. split; [exact A|]. split; [exact B|exact C].
@@ -1978,7 +2008,7 @@ Section Scr.
       + intros j. rewrite nth_snoc. destruct (j <? length (st_ih u))%nat eqn:L; [auto|].
         destruct (j =? length (st_ih u))%nat eqn:E; cbn; discriminate.
       + intros F. congruence.
-      + rewrite c_hs0, app_length. cbn [length]. rewrite Nat.add_1_r. apply htable_add.
+      + rewrite app_length. cbn [length]. rewrite Nat.add_1_r. apply HsOK_add_ready, c_hs0.
   Qed.
 
   (* what the application sees after wait_on_input(): the flags / the value of the last ready signal of the handler *)
@@ -2022,6 +2052,17 @@ Section Scr.
     - intros j L1 L2. rewrite nth_upd_nth. destruct ((j =? scr)%nat && (scr <? length (st_scr u))%nat); [rewrite F1|]; auto.
   Qed.
 
+  (* the application's own signals: self.connect(Custom_c, callback_k) / self.emit(self.create_signal(Custom_c, prio)) *)
+  Lemma IT_connect c k self : k < 7 -> IT (PApi (ARegHandler (CLS_CUSTOM c) (H_CUSTOM k) self)).
+  Proof.
+    intros K n Q s HS HI HQ. open_inv HI. step HAt; [chk_side HQf|]. apply HQ.
+    eapply At_Inv; [exact HAt| |quiet_auto HQf]. core_auto.
+    apply HsOK_add_custom; [exact c_hs0|unfold CLS_CUSTOM; lia|unfold H_CUSTOM; lia].
+  Qed.
+  Lemma IT_emit_custom c p self : IT (PApi (AEnqueue {| sp_cls := CLS_CUSTOM c; sp_prio := p; sp_src := Some self; sp_a := 0;
+                                                         sp_b := false; sp_data := [] |})).
+  Proof. apply IT_enq_other; cbn [sp_cls]; unfold CLS_CUSTOM, CLS_READY, CLS_RECEIVED; lia. Qed.
+
   Lemma forallb_Forall_wf l : forallb (scmd_wf N fresh) l = true -> Forall (fun c => scmd_wf N fresh c = true) l.
   Proof. intros H. apply Forall_forall. intros x I. rewrite forallb_forall in H. auto. Qed.
 
@@ -2038,6 +2079,8 @@ Section Scr.
       + apply IT_throw.
       + apply IT_enq_other; discriminate.
       + apply IT_enq_other; discriminate.
+      + apply IT_connect. cbn [scmd_wf] in WF. apply Nat.ltb_lt, WF.
+      + apply IT_emit_custom.
       + apply IT_get_input_blocking.
       + apply IT_wr_typeahead.
       + apply IT_handler_ask. cbn [scmd_wf] in WF. destruct fresh; [discriminate WF|reflexivity].
@@ -2068,7 +2111,7 @@ Section Scr.
     (forall x, In x (sc_input (specs scr)) -> cmds_wf N fresh (fst (snd x)) = true) /\
     cmds_wf N fresh (fst (sc_input_default (specs scr))) = true.
   Proof.
-    pose proof (Hwf scr) as H. unfold spec_wf in H.
+    pose proof (Hwf scr) as H. unfold spec_wf in H. apply andb_true_iff in H. destruct H as [H _].
     apply andb_true_iff in H. destruct H as [H H5]. apply andb_true_iff in H. destruct H as [H H4].
     apply andb_true_iff in H. destruct H as [H H3]. apply andb_true_iff in H. destruct H as [H1 H2].
     repeat split; auto. intros x I. rewrite forallb_forall in H4. auto.
@@ -3084,19 +3127,23 @@ Section Scr.
   Lemma screen_code_ready idx sg data : screen_code specs (H_READY idx) sg data = input_ready_handler specs idx sg.
   Proof. unfold screen_code, H_READY, H_RENDER, H_CLOSE, H_RECEIVED. cbn. rewrite Nat.sub_0_r. reflexivity. Qed.
 
-  Lemma htable_find k cls hs0 :
-    option_map snd (find (fun p : nat * list (nat * nat) => (fst p =? cls)%nat) (htable k)) = Some hs0 ->
-    (cls = CLS_RENDER /\ hs0 = [(H_RENDER, 0)]) \/ (cls = CLS_CLOSE /\ hs0 = [(H_CLOSE, 0)]) \/
-    (cls = CLS_RECEIVED /\ hs0 = [(H_RECEIVED, 0)]) \/
-    (cls = CLS_READY /\ hs0 = map (fun j => (H_READY j, 0)) (seq 0 k)).
+  Lemma screen_code_custom hid sg data : 3 <= hid < 10 -> screen_code specs hid sg data = custom_handler specs (hid - 3) sg data.
   Proof.
-    unfold htable. cbn [app find fst].
-    destruct (CLS_RENDER =? cls)%nat eqn:E1; [apply Nat.eqb_eq in E1; cbn; intros X; inversion X; auto|].
-    destruct (CLS_CLOSE =? cls)%nat eqn:E2; [apply Nat.eqb_eq in E2; cbn; intros X; inversion X; auto|].
-    destruct (CLS_RECEIVED =? cls)%nat eqn:E3; [apply Nat.eqb_eq in E3; cbn; intros X; inversion X; auto 6|].
-    destruct k as [|k]; [cbn; discriminate|]. cbn [find fst].
-    destruct (CLS_READY =? cls)%nat eqn:E4; [apply Nat.eqb_eq in E4; cbn [option_map snd]; intros X; inversion X; auto 6|].
-    cbn. discriminate.
+    intros B. unfold screen_code, H_RENDER, H_CLOSE, H_RECEIVED.
+    assert (E0 : (hid =? 0)%nat = false) by (apply Nat.eqb_neq; lia).
+    assert (E1 : (hid =? 1)%nat = false) by (apply Nat.eqb_neq; lia).
+    assert (E2 : (hid =? 2)%nat = false) by (apply Nat.eqb_neq; lia).
+    assert (E3 : (10 <=? hid)%nat = false) by (apply Nat.leb_gt; lia).
+    assert (E4 : (3 <=? hid)%nat = true) by (apply Nat.leb_le; lia).
+    rewrite E0, E1, E2, E3, E4. reflexivity.
+  Qed.
+
+  (* a screen's own signal callback: like any callback running commands *)
+  Lemma IT_custom_handler k sg scr : IT (custom_handler specs k sg scr).
+  Proof.
+    unfold custom_handler. apply IT_seq; [apply IT_ev_plain; reflexivity|]. apply IT_run_cmds.
+    pose proof (Hwf scr) as H. unfold spec_wf in H. apply andb_true_iff in H. destruct H as [_ H].
+    rewrite forallb_forall in H. destruct (nth_in_or_default k (sc_custom (specs scr)) []) as [I|E]; [apply H, I|rewrite E; reflexivity].
   Qed.
 
   Lemma G_handler n : SP n -> forall s sg idx hs0 hid data,
@@ -3109,22 +3156,31 @@ Section Scr.
     intros HS s sg idx hs0 hid data HI SP _ HF NE.
     change (fun o s2 => let s3 := emit (EHandlerEnd hid (sg_id sg) (how_of o)) s2 in Inv s3 /\ Rk s s3 /\ SigPre sg (S idx) s3)
       with (HPost s sg idx hid).
-    assert (HT : handlers s = htable (length (st_ih (ust s)))) by (destruct HI as (_ & _ & C & _); apply (c_hs _ _ _ _ _ C)).
-    unfold handlers_of in HF. rewrite HT in HF.
-    destruct (htable_find _ _ _ HF) as [[CL ->]|[[CL ->]|[[CL ->]|[CL ->]]]].
-    - destruct idx as [|[|idx]]; cbn in NE; try discriminate NE. inversion NE; subst hid data.
-      apply handler_of_IT; [apply IT_process_screen|exact HS|exact HI|discriminate|rewrite CL; discriminate|rewrite CL; discriminate].
-    - destruct idx as [|[|idx]]; cbn in NE; try discriminate NE. inversion NE; subst hid data.
-      apply handler_of_IT; [apply IT_close_screen|exact HS|exact HI|discriminate|rewrite CL; discriminate|rewrite CL; discriminate].
-    - destruct idx as [|[|idx]]; cbn in NE; try discriminate NE. inversion NE; subst hid data.
-      apply H_received; assumption.
-    - rewrite nth_error_map in NE. destruct (nth_error (seq 0 (length (st_ih (ust s)))) idx) as [j|] eqn:E; [|discriminate NE].
+    assert (HT : HsOK (length (st_ih (ust s))) (handlers s)) by (destruct HI as (_ & _ & C & _); apply (c_hs _ _ _ _ _ C)).
+    assert (HL : hlist (handlers s) (sg_cls sg) = hs0) by (unfold hlist; unfold handlers_of in HF; rewrite HF; reflexivity).
+    destruct HT as (T1 & T2 & T3 & T4 & T5).
+    destruct (Nat.eq_dec (sg_cls sg) CLS_RENDER) as [CL|N1]; [rewrite CL, T1 in HL; subst hs0|].
+    { destruct idx as [|[|idx]]; cbn in NE; try discriminate NE. inversion NE; subst hid data.
+      apply handler_of_IT; [apply IT_process_screen|exact HS|exact HI|discriminate|rewrite CL; discriminate|rewrite CL; discriminate]. }
+    destruct (Nat.eq_dec (sg_cls sg) CLS_CLOSE) as [CL|N2]; [rewrite CL, T2 in HL; subst hs0|].
+    { destruct idx as [|[|idx]]; cbn in NE; try discriminate NE. inversion NE; subst hid data.
+      apply handler_of_IT; [apply IT_close_screen|exact HS|exact HI|discriminate|rewrite CL; discriminate|rewrite CL; discriminate]. }
+    destruct (Nat.eq_dec (sg_cls sg) CLS_RECEIVED) as [CL|N3]; [rewrite CL, T3 in HL; subst hs0|].
+    { destruct idx as [|[|idx]]; cbn in NE; try discriminate NE. inversion NE; subst hid data.
+      apply H_received; assumption. }
+    destruct (Nat.eq_dec (sg_cls sg) CLS_READY) as [CL|N4]; [rewrite CL, T4 in HL; subst hs0|].
+    { rewrite nth_error_map in NE. destruct (nth_error (seq 0 (length (st_ih (ust s)))) idx) as [j|] eqn:E; [|discriminate NE].
       cbn in NE. inversion NE; subst hid data.
       assert (j = idx).
       { assert (L : idx < length (seq 0 (length (st_ih (ust s))))) by (apply nth_error_Some; congruence).
         rewrite seq_length in L. rewrite (nth_error_nth' _ 0) in E by (rewrite seq_length; exact L).
         rewrite seq_nth in E by exact L. inversion E. reflexivity. }
-      subst j. rewrite screen_code_ready. apply H_ready; assumption.
+      subst j. rewrite screen_code_ready. apply H_ready; assumption. }
+    (* one of the application's own signal classes: a screen's callback *)
+    assert (C : sg_cls sg = 0 \/ 5 <= sg_cls sg) by (unfold CLS_RENDER, CLS_CLOSE, CLS_RECEIVED, CLS_READY in *; lia).
+    specialize (T5 _ C). rewrite HL in T5. rewrite Forall_forall in T5. pose proof (T5 _ (nth_error_In _ _ NE)) as B. cbn [fst] in B.
+    rewrite (screen_code_custom _ _ _ B).
+    apply handler_of_IT; [apply IT_custom_handler|exact HS|exact HI|unfold H_RECEIVED; lia|exact N4|exact N3].
   Qed.
 
   Theorem screen_spec_all : forall n, SP n.
@@ -3222,7 +3278,8 @@ Proof.
     + reflexivity.
     + apply map_length.
     + intros d [].
-    + reflexivity.
+    + unfold HsOK, hlist. cbn. repeat split; try reflexivity. intros cls C.
+      destruct cls as [|[|[|[|cls]]]]; cbn; try constructor; exfalso; lia.
     + apply PSub_refl.
     + intros sg [].
     + intros sp [].
@@ -3278,7 +3335,7 @@ Proof.
     unfold spec_wf, spec_noask in *. rewrite !cmds_wf_fresh.
     repeat (apply andb_true_iff in W1; destruct W1 as [W1 ?]). repeat (apply andb_true_iff in N1; destruct N1 as [N1 ?]).
     repeat (apply andb_true_iff; split); try assumption.
-    rewrite forallb_forall in *. intros x Ix. rewrite cmds_wf_fresh. apply andb_true_iff. split; auto.
+    all: rewrite forallb_forall in *; intros x Ix; rewrite cmds_wf_fresh; apply andb_true_iff; split; auto.
   - exact W2.
   - unfold acts_wf in *. rewrite forallb_forall in *. intros a I. specialize (W3 a I). specialize (N2 a I).
     destruct a; [|reflexivity]. rewrite cmds_wf_fresh. apply andb_true_iff. split; assumption.
